@@ -30,11 +30,13 @@ def rand_input(rng):
 
 def run_bin(args):
     path, lvl, data = args
-    try:
-        p = subprocess.run([HYEONG_BIN, "--color", "never", "run", "-O%d" % lvl, path], input=data, stdout=subprocess.PIPE, stderr=subprocess.PIPE, timeout=20)
-        return p.stdout, p.stderr, p.returncode
-    except subprocess.TimeoutExpired:
-        return b"", b"", "timeout"
+    for limit in (20, 180):      # the copy programs terminate: a time-out gets one much longer retry (loaded machine)
+        try:
+            p = subprocess.run([HYEONG_BIN, "--color", "never", "run", "-O%d" % lvl, path], input=data, stdout=subprocess.PIPE, stderr=subprocess.PIPE, timeout=limit)
+            return p.stdout, p.stderr, p.returncode
+        except subprocess.TimeoutExpired:
+            pass
+    return b"", b"", "timeout"
 
 
 def main(tier, seed):
